@@ -468,6 +468,38 @@ def job_setters_after(cfg):
     return n, res
 
 
+def job_failing_reads(cfg):
+    """Monitoring calls while the inverter does not answer: streaks of 1..5 failing calls (every read entry point in turn,
+    and one entry point repeated), then the inverter answers again - no write / control request is ever transmitted,
+    whatever the object makes of its failures."""
+    out = {}
+    n = 0
+    for streak_op in READ_OPS + ['all']:
+        r = prepare(cfg)
+        r.call(r.inv.read_device_info)
+        l0 = len(r.dev.log)
+        r.dev.silent = True
+        ops = READ_OPS if streak_op == 'all' else [streak_op] * 5
+        for op in ops:
+            do_read(r, op)
+            n += 1
+        r.dev.silent = False
+        for op in ('read_runtime_data', 'read_device_info'):
+            do_read(r, op)
+            n += 1
+        w = [q for q in r.dev.log[l0:] if q.get('fn') not in (3, 'read')]
+        if w:
+            key = f"read-only/{cfg['family']}/while-the-inverter-is-silent"
+            out.setdefault(key, []).append(dict(key=key, clause='monitoring calls transmit only read requests',
+                                                replay=dict(part='failing-reads', cfg=cfg),
+                                                detail=dict(calls=ops, write_seen=str(w[0])[:100])))
+    res = []
+    for key, lst in out.items():
+        lst[0]['n'] = len(lst)
+        res.append(lst[0])
+    return n, res
+
+
 def vacuity(cfg):
     """in-range arguments do produce writes (otherwise part (b) would be vacuous)."""
     r = prepare(cfg)
@@ -524,6 +556,14 @@ def run(tier, seed, rep):
     for n, res in pmap(job_connect_faults, [(c, ka) for c in (cf_cfgs if tier == 'thorough' else cf_cfgs[:3]) for ka in (False, True)]):
         ncf += n
         rep.add_many(res)
+    nfail = 0
+    fcfgs = [c for c in cfgs if c['eco'] in ('off', 'charge') and c['refused'] == ()]
+    fr = {}
+    for c in fcfgs:
+        fr.setdefault((c['family'], c.get('firmware'), c['tag']), c)
+    for n, res in pmap(job_failing_reads, list(fr.values())):
+        nfail += n
+        rep.add_many(res)
     nsid = 0
     for n, res in pmap(job_sensor_ids, [c for c in cfgs if c['eco'] in ('off', 'charge') and c['refused'] == ()][:6] +
                        [c for c in cfgs if c['family'] == 'ES'][:1]):
@@ -565,7 +605,7 @@ def run(tier, seed, rep):
                     dict(part='vacuity', cfg=c), dict(call=name))
     cov = dict(api_session_histories=_api['histories'], api_session_states=_api['states'],
                states=states, transitions=max(edges, 1), executions=total + ne + ns + ncf, traces_validated_against_impl=total + ne + ns + ncf,
-               connect_fault_runs=ncf, raw_register_id_calls=nraw, sensor_ids_written=nsid, unlisted_id_write_attempts=nrem, invalid_calls_after_legal_setters=nsa,
+               connect_fault_runs=ncf, monitoring_calls_on_a_silent_inverter=nfail, raw_register_id_calls=nraw, sensor_ids_written=nsid, unlisted_id_write_attempts=nrem, invalid_calls_after_legal_setters=nsa,
                read_sequences=total, entry_point_runs=ne, setter_calls=ns, distinct_read_outcomes=ocs, exhaustive=True,
                bound=f'BFS over read-only call sequences of depth <= {depth} ({len(READ_OPS)} calls) with state de-duplication x '
                      f'{len(cfgs)} configurations (families, capability fallbacks, eco-mode register contents); connect() and '
@@ -598,6 +638,9 @@ def replay(r):
             outs.append(str(do_read(rg, op))[:80])
             w += [q for q in rg.dev.log[l0:] if q.get('fn') not in (3, 'read')]
         return dict(outcomes=outs, violations=[str(x) for x in w])
+    if r['part'] == 'failing-reads':
+        n, res = job_failing_reads(cfg)
+        return dict(calls=n, violations=[(v['key'], str(v['detail'])[:200]) for v in res])
     if r['part'] == 'setter-after':
         n, res = job_setters_after(cfg)
         return dict(calls=n, violations=[(v['key'], str(v['detail'])[:200]) for v in res])
